@@ -611,9 +611,24 @@ type seen struct {
 	payload []byte
 }
 
-func genRsvConversation(t *rapid.T, server bool) (frames []ref.Frame, violation int) {
+// badOp (>= 0): a continuation frame whose opcode was replaced by text/binary — a new data
+// frame while a fragmented message is open (RFC 6455 §5.4), with or without RSV1.
+func genRsvConversation(t *rapid.T, server bool) (frames []ref.Frame, violation, badOp int) {
 	frames = gen.Conversation(t, "conv", gen.ConvOpts{Masked: server, MaxMsgs: 4, MaxPayload: 120, Close: true})
-	mode := rapid.SampledFrom([]string{"legal", "legal", "one-violation", "one-violation", "arbitrary"}).Draw(t, "rsvmode")
+	mode := rapid.SampledFrom([]string{"legal", "legal", "one-violation", "one-violation", "arbitrary", "data-opcode-mid-message"}).Draw(t, "rsvmode")
+	badOp = -1
+	if mode == "data-opcode-mid-message" {
+		var conts []int
+		for i, f := range frames {
+			if f.H.Op == ref.OpCont {
+				conts = append(conts, i)
+			}
+		}
+		if len(conts) > 0 {
+			badOp = rapid.SampledFrom(conts).Draw(t, "bad-opcode-at")
+			frames[badOp].H.Op = rapid.SampledFrom([]byte{ref.OpText, ref.OpBinary}).Draw(t, "bad-opcode")
+		}
+	}
 	var others []int
 	for i, f := range frames {
 		if !firstData(f.H.Op) {
@@ -638,11 +653,11 @@ func genRsvConversation(t *rapid.T, server bool) (frames []ref.Frame, violation 
 		case i == bad:
 			h.Rsv |= rsv1
 		}
-		if !firstData(h.Op) && h.Rsv&rsv1 != 0 && violation < 0 {
+		if (i == badOp || (!firstData(h.Op) && h.Rsv&rsv1 != 0)) && violation < 0 {
 			violation = i
 		}
 	}
-	return frames, violation
+	return frames, violation, badOp
 }
 
 func rsvShape(frames []ref.Frame) string {
@@ -656,7 +671,7 @@ func rsvShape(frames []ref.Frame) string {
 func TestReaderSide(t *testing.T) {
 	hx.Check(t, 30, func(t *rapid.T) {
 		server := rapid.Bool().Draw(t, "server")
-		frames, violation := genRsvConversation(t, server)
+		frames, violation, badOp := genRsvConversation(t, server)
 		chunks := gen.Chunks(t, "chunks")
 		callbacks := rapid.IntRange(0, 3).Draw(t, "callbacks") != 0
 		prior := rapid.Bool().Draw(t, "prior-state")
@@ -670,6 +685,9 @@ func TestReaderSide(t *testing.T) {
 		// Extended flag says; with checks on and Extended off the header check refuses RSV bits
 		extended := rapid.IntRange(0, 3).Draw(t, "state-extended") != 0
 		skipCheck := rapid.IntRange(0, 3).Draw(t, "skip-header-check") == 0
+		if badOp >= 0 {
+			skipCheck = false // the interleaving ban is the header check's; without it the outcome is open
+		}
 		state := ws.StateClientSide
 		if server {
 			state = ws.StateServerSide
@@ -681,8 +699,8 @@ func TestReaderSide(t *testing.T) {
 		if !extended && !skipCheck {
 			violation = -1
 			for i, f := range frames {
-				if f.H.Rsv != 0 {
-					violation = i // refused by the header check: no extension negotiated as far as the state says
+				if f.H.Rsv != 0 || i == badOp {
+					violation = i // refused by the header check (RSV without a negotiated extension, or §5.4)
 					break
 				}
 			}
@@ -725,8 +743,10 @@ func TestReaderSide(t *testing.T) {
 
 		hx.Eval()
 		switch {
-		case !extended && !skipCheck && violation >= 0:
+		case !extended && !skipCheck && violation >= 0 && violation != badOp:
 			hx.Class("reader/rsv-refused-by-header-check")
+		case violation >= 0 && violation == badOp:
+			hx.Class(fmt.Sprintf("reader/new-data-frame-inside-open-message/rsv1=%v", frames[badOp].H.Rsv&rsv1 != 0))
 		case violation < 0:
 			hx.Class("reader/all-legal")
 		case ref.IsControl(frames[violation].H.Op) && ref.FragmentedBefore(frames, violation):
@@ -861,6 +881,9 @@ func TestReaderSide(t *testing.T) {
 			if stop != end {
 				if !isProtocolError(err) {
 					t.Fatalf("frame %d (%s with RSV1 inside a message): Read/Discard err = %v, want a ws.ProtocolError\n%s", violation, ref.Describe(frames[violation : violation+1])[0], err, desc())
+				}
+				if violation == badOp && ms.IsCompressed() != flag {
+					t.Fatalf("frame %d (a %s frame while the message begun at frame %d is still open): the message state flipped to compressed=%v\n%s", violation, ref.Describe(frames[violation : violation+1])[0], i, ms.IsCompressed(), desc())
 				}
 				if !discard && !bytes.HasPrefix(want, got) {
 					t.Fatalf("bytes delivered before the protocol error are not a prefix of the message\n%s", desc())
